@@ -1,14 +1,10 @@
 import Tickit.Driver.Common
-import Tickit.Driver.Rect
+import Tickit.Driver.Registry
 /-
   tickit_model <engine> <ops-file> <impl-obs-file>
   For every operation line prints `M <model obs>` and `S ok` | `S fail <why>`.
 -/
 open Tickit.Driver
-
-def engines : List (String × Engine) := [
-  ("rect", RectEngine.engine)
-]
 
 def runEngine (e : Engine) (ops impl : Array String) : IO Unit := do
   let out ← IO.getStdout
